@@ -8,7 +8,7 @@
     separately.  Grains are not modelled for these features (quaternion interpolation between sections,
     known finding D4) are modelled with the quaternion routines of Quat.v. *)
 From Coq Require Import ZArith NArith List Bool.
-From WB Require Import Num Base Props World Kernels Features Bezier BezierSph SlabLayout SlabModel Quat.
+From WB Require Import Num Base Props World Kernels Features Bezier BezierSph SlabLayout SlabModel Quat SlabMass.
 Import ListNotations.
 
 Section SlabFeature.
@@ -20,7 +20,8 @@ Section SlabFeature.
   | STUniform (mn mx : F) (o : op) (T : F)
   | STLinear (mn mx : F) (o : op) (t0 t1 : F)         (* slab: top / bottom; fault: center / side temperature *)
   | STAdiabatic (mn mx : F) (o : op) (Tp alpha cp : F)   (* sentinels resolved at parse time *)
-  | STPlate (mn mx : F) (o : op) (density vel k alpha cp : F) (adiabatic_heating : bool) (Tp : F).  (* slab only: McKenzie (1970) *)
+  | STPlate (mn mx : F) (o : op) (density vel k alpha cp : F) (adiabatic_heating : bool) (Tp : F)   (* slab only: McKenzie (1970) *)
+  | STMass (m : @mass_model F).                                                                     (* slab only: mass conserving *)
 
   (** the 500-term series of the slab plate model *)
   Fixpoint mckenzie_sum (n : nat) (i : nat) (Rn x_scaled z_scaled acc : F) : F :=
@@ -50,7 +51,7 @@ Section SlabFeature.
 
   Definition in_dist (mn mx x : F) : bool := (x <=? mx) && (mn <=? x).
 
-  Definition stemp_eval (g : @globals F) (fault : bool) (q : @query F) (pd : @plane_distances F) (local_thickness : F) (m : stemp) (old : F) : F :=
+  Definition stemp_eval (g : @globals F) (fault sph : bool) (q : @query F) (pd : @plane_distances F) (local_thickness total : F) (m : stemp) (old : F) : F :=
     let d := pd_distance pd in
     let dd := if fault then fabs d else d in
     match m with
@@ -76,7 +77,11 @@ Section SlabFeature.
           let sum := mckenzie_sum 500 1 Rn x_scaled z_scaled f0 in
           apply_op o old (temp * (Tp + ((f2 * (Tp - fdec 27315 (-2))) * sum)))
         else old
+    | STMass mm => mass_temperature sph (q_g q) (q_depth q) mm pd total old
     end.
+
+  Definition stemp_throws (sph : bool) (pd : @plane_distances F) (m : stemp) : bool :=
+    match m with STMass mm => mass_throws sph mm pd | _ => false end.
 
   Fixpoint find3 (comps : list N) (a b : list F) (c : N) : option (F * F) :=
     match comps, a, b with
@@ -209,14 +214,14 @@ Section SlabFeature.
   (** painting one property block (only called when [lf_covers]) *)
   Definition lf_paint (g : @globals F) (tape : nat -> F) (lf : line_feature) (q : @query F) (p : prop_req) (t : nat) (blk : list F) : list F * nat :=
     let pd := lf_distances lf q in
-    let '(th, _, _, cur, nxt) := lf_local lf pd in
+    let '(th, _, tot, cur, nxt) := lf_local lf pd in
     let sf := pd_section_fraction pd in
     let fault := lf_fault lf in
     match p with
     | PTemp =>
         let old := nth 0 blk f0 in
-        let a := fold_left (fun o m => stemp_eval g fault q pd th m o) (ls_temp cur) old in
-        let b := fold_left (fun o m => stemp_eval g fault q pd th m o) (ls_temp nxt) old in
+        let a := fold_left (fun o m => stemp_eval g fault (lf_sph lf) q pd th tot m o) (ls_temp cur) old in
+        let b := fold_left (fun o m => stemp_eval g fault (lf_sph lf) q pd th tot m o) (ls_temp nxt) old in
         ([section_interp a b sf], t)
     | PComp c =>
         let old := nth 0 blk f0 in
@@ -241,12 +246,20 @@ Section SlabFeature.
     end.
 
   (** requests the model does not cover for these features *)
-  Definition lf_paint_unmodelled (p : prop_req) : bool := false.
+  (** a temperature request throws when a mass conserving model of the two sections rejects the plate ages *)
+  Definition lf_paint_err (lf : line_feature) (q : @query F) (p : prop_req) : bool :=
+    match p with
+    | PTemp =>
+        let pd := lf_distances lf q in
+        let '(_, _, _, cur, nxt) := lf_local lf pd in
+        existsb (stemp_throws (lf_sph lf) pd) (ls_temp cur) || existsb (stemp_throws (lf_sph lf) pd) (ls_temp nxt)
+    | _ => false
+    end.
 
   Definition line_to_feature (g : @globals F) (tape : nat -> F) (lf : line_feature) : @feature F :=
     {| ft_covers := lf_covers lf;
        ft_cov_err := fun _ => false;
-       ft_paint_err := fun _ p => lf_paint_unmodelled p;
+       ft_paint_err := lf_paint_err lf;
        ft_paint := lf_paint g tape lf;
        ft_tag := lf_tag lf |}.
 
